@@ -478,6 +478,14 @@ def probe(ctx):
                              dict(op='su2-roundtrip', U=[[x.real, x.imag] for x in U.reshape(-1)], corpus=tag))
                 else:
                     ctx.probe_ok(('corpus', tag))
+            elif e['kind'] == 'so3_batch':
+                Rs = [exact_rz(a_ + g_) if b_ == 0 else ref_so3(a_, b_, g_) for a_, b_, g_ in e['angles']]
+                Rb = np.stack(Rs)
+                r = guarded(lambda: G.angle_to_so3(*G.so3_to_angle(Rb)))
+                if isinstance(r, str) or amax(r - Rb) > 1e-6:
+                    ctx.fail('corpus-so3', f'corpus {tag} ({e.get("why", "")}): batch conversion fails: ' + (r if isinstance(r, str) else f'{amax(r - Rb):.3g}'), dict(op='so3-batch', shape=[len(Rs)], batch=fl(Rb), corpus=tag))
+                else:
+                    ctx.probe_ok(('corpus', tag))
             elif e['kind'] == 'so3_to_su2':
                 R = ref_so3(*e['angles']) if 'angles' in e else np.array(e['R'], dtype=np.float64).reshape(3, 3)
                 def f():
@@ -883,6 +891,50 @@ def probe(ctx):
             ctx.fail('dtype-aliasing-angles', f'angle arrays of kind {tag}: forward maps wrong or input modified: ' + (r if isinstance(r, str) else ''), dict(op='dtype-aliasing', function='angle_to_*', angles=af.tolist(), variant=tag))
         else:
             ctx.probe_ok(('dtype-angles', tag))
+
+    # P12: histories over the memoised helpers (_get_su2_irrep_get_coeff, the Clebsch–Gordan cache): the same call repeated, sizes
+    # interleaved, float32 then float64, other functions that read the caches in between — every result must equal the first one;
+    # returned arrays are the caller's: overwriting them must not change later results
+    def snap(x):
+        if isinstance(x, (list, tuple)):
+            return [snap(y) for y in x]
+        return np.array(x, copy=True)
+
+    def same(x, y):
+        if isinstance(x, (list, tuple)):
+            return len(x) == len(y) and all(same(u, v) for u, v in zip(x, y))
+        return np.array_equal(np.asarray(x), np.asarray(y))
+
+    def poison(x):
+        if isinstance(x, (list, tuple)):
+            for y in x: poison(y)
+        elif isinstance(x, np.ndarray) and x.flags.writeable:
+            x[...] = 7
+    a32 = np.array([0.3, 1.2], dtype=np.float32)
+    hist = [('irrep3', lambda: G.get_su2_irrep(3, 0.4, 1.1, 2.0)), ('irrep7', lambda: G.get_su2_irrep(7, 0.4, 1.1, 2.0)), ('irrep3-f32', lambda: G.get_su2_irrep(3, a32, a32, a32)),
+            ('irrep3-matd', lambda: G.get_su2_irrep(3, 0.4, 1.1, 2.0, return_matd=True)), ('irrep3-U', lambda: G.get_su2_irrep(3, ref_su2(0.4, 1.1, 2.0))),
+            ('cg21', lambda: [c for _, c in numqi.matrix_space.get_clebsch_gordan_coeffient(2, 1)]), ('cg33', lambda: [c for _, c in numqi.matrix_space.get_clebsch_gordan_coeffient(3, 3)]),
+            ('ito3', lambda: numqi.matrix_space.get_irreducible_tensor_operator(3)), ('ihb3', lambda: numqi.matrix_space.get_irreducible_hermitian_matrix_basis(3, tag_stack=True)),
+            ('jop5', lambda: numqi.matrix_space.get_angular_momentum_op(5))]
+    first = {}
+    order = [h for h in hist] + [hist[i] for i in (1, 0, 2, 0, 5, 7, 5, 8, 6, 5, 3, 0, 4, 9, 1)]
+    for step, (name, f) in enumerate(order):
+        r = guarded(lambda: snap(f()))
+        if isinstance(r, str):
+            ctx.fail('history-caches', f'step {step} ({name}) of the call history raised {r}', dict(op='history', step=step, name=name, order=[n for n, _ in order])); break
+        if name not in first:
+            first[name] = r
+        elif not same(r, first[name]):
+            ctx.fail('history-caches', f'step {step}: {name} differs from its first result after the history {[n for n, _ in order[:step]]}', dict(op='history', step=step, name=name, order=[n for n, _ in order])); break
+        else:
+            ctx.probe_ok(('hist', step))
+        if not name.startswith('cg'):      # (the CG getter hands out the cached arrays themselves on the clean tree: observation, see design notes)
+            guarded(lambda: poison(f()))
+    rm = guarded(lambda: G.get_su2_irrep(2, 0.4, 1.1, 2.0, return_matd=True))
+    if isinstance(rm, str) or len(rm) != 2 or amax(np.asarray(rm[0]) - np.asarray(G.get_su2_irrep(2, 0.4, 1.1, 2.0))) > 0 or amax(np.asarray(rm[1]) - np.asarray(G.get_su2_irrep(2, 0.0, 1.1, 0.0)).real) > 1e-14:
+        ctx.fail('irrep-return-matd', f'get_su2_irrep(return_matd=True) does not return (D, d(beta)): {rm if isinstance(rm, str) else ""}', dict(op='irrep-matd', j2=2, angles=[0.4, 1.1, 2.0]))
+    else:
+        ctx.probe_ok('matd')
 
     # P7: rational 2x2 rotations are orthogonal
     for _ in range(50):
